@@ -310,6 +310,8 @@ pub fn build(j: &Json, ctx: &Ctx) -> Option<Observable<'static, Val>> {
     "default_if_empty" => o.default_if_empty(Val::Int(a)),
     "ignore_elements" => o.ignore_elements(),
     "start_with" => o.start_with(vec![Val::Int(a), Val::Int(a + 1)].into_iter()),
+    // an endless prefix: only usable under an operator that ends the stream (C06)
+    "start_with_endless" => o.start_with((0i64..).map(Val::Int)),
     "buffer_with_count" => o.buffer_with_count(n.max(1)).map(Val::List),
     "window_with_count" => o.window_with_count(n.max(1)).flat_map(|w: Observable<'static, Val>| w),
     "group_by" => {
